@@ -51,9 +51,12 @@ theorem NP_castValue (O : Oracles) (v : Value) (t : VType) : NP (castValue O v t
     intro r; cases r <;> rfl
   all_goals np
 
+theorem NP_makeTimestampOf (y mo d h mi s us : Int) : NP (makeTimestampOf y mo d h mi s us) := by
+  unfold makeTimestampOf; np
+
 theorem NP_callFunction (O : Oracles) (f : Func) (args : List Value) : NP (callFunction O f args) := by
   unfold callFunction
-  repeat' (first | rfl | exact NP_dateTrunc _ _ _ _ | split | (dsimp only))
+  repeat' (first | rfl | exact NP_dateTrunc _ _ _ _ | exact NP_makeTimestampOf _ _ _ _ _ _ _ | split | (dsimp only))
 
 macro "npb" : tactic => `(tactic| (repeat' (first
   | rfl | assumption
